@@ -1,6 +1,7 @@
 """Lifecycle harness (C08, C09, C10): accessor tracing, baton scheduler over real threads,
 request kinds, solo-response oracle."""
 import io
+import os
 import json
 import sys
 import threading
@@ -391,6 +392,18 @@ def make_app(config=None, app=None):
                 out.append([key, one.raw_filename, hs, str(getattr(one.content_type, 'value', one.content_type))])
         return json.dumps([name, out])
 
+    @app.route('/mpf/<name>', method='POST')
+    def mpf(name):
+        # a multipart form that reaches the parser in small pieces: every field and every uploaded byte belongs to this request
+        fl = [[k, one.raw_filename, one.file.read().decode('latin1')] for k, u in sorted(rq.files.items()) for one in (u if isinstance(u, list) else [u])]
+        return json.dumps([name, sorted([k, v] for k, v in rq.forms.items()), fl])
+
+    @app.route('/sf/<name>')
+    def sf(name):
+        # the module-level helper serving a file (full, ranged, HEAD): the same file for every client
+        import ombott as _o
+        return _o.static_file('static_sample.txt', root=os.path.join(os.path.dirname(os.path.abspath(__file__)), 'data'))
+
     @app.route('/crashform/x', method='POST')
     def crashform():
         raise ValueError('cannot use %r' % (rq.forms.get('v'),))
@@ -459,6 +472,13 @@ def make_app(config=None, app=None):
     return app
 
 
+class Dribble(io.BytesIO):
+    """A socket-like input: a read returns at most 7 bytes."""
+
+    def read(self, n=-1):
+        return super().read(7 if n is None or n < 0 else min(n, 7))
+
+
 def environ_for(kind, name):
     env = base_environ(HTTP_X_ID='id-' + name, HTTP_COOKIE='c=' + name + '; d=1', HTTP_HOST='host-%s.example' % name,
                        QUERY_STRING='q=' + name + '&r=1')
@@ -509,6 +529,27 @@ def environ_for(kind, name):
         data = ('--B\r\nContent-Disposition: form-data; name="f"; filename="%s.bin"\r\n%s\r\nDATA-%s\r\n--B--\r\n' % (name, extra, name)).encode()
         env.update(PATH_INFO='/up/' + name, REQUEST_METHOD='POST', CONTENT_LENGTH=str(len(data)), CONTENT_TYPE='multipart/form-data; boundary=B')
         env['wsgi.input'] = io.BytesIO(data)
+    elif kind == 'mpfrag':
+        # the same boundary for every client (browsers of one family do that), short reads that cut every delimiter
+        data = ('--formboundary\r\nContent-Disposition: form-data; name="first"\r\n\r\n%s-first-value\r\n'
+                '--formboundary\r\nContent-Disposition: form-data; name="second"\r\n\r\n%s-second-value\r\n'
+                '--formboundary\r\nContent-Disposition: form-data; name="up"; filename="%s.txt"\r\n\r\nfile of %s\r\n-\r\n--form\r\n'
+                '--formboundary--\r\n' % (name, name, name, name)).encode()
+        env.update(PATH_INFO='/mpf/' + name, REQUEST_METHOD='POST', CONTENT_LENGTH=str(len(data)), CONTENT_TYPE='multipart/form-data; boundary=formboundary')
+        env['wsgi.input'] = Dribble(data)
+    elif kind == 'mprep':
+        # a multipart form with repeated field names (check boxes, several files under one name)
+        data = ('--B\r\nContent-Disposition: form-data; name="tag"\r\n\r\nred-%s\r\n--B\r\nContent-Disposition: form-data; name="tag"\r\n\r\nblue-%s\r\n'
+                '--B\r\nContent-Disposition: form-data; name="up"; filename="1-%s.txt"\r\n\r\none\r\n'
+                '--B\r\nContent-Disposition: form-data; name="up"; filename="2-%s.txt"\r\n\r\ntwo\r\n--B--\r\n' % (name, name, name, name)).encode()
+        env.update(PATH_INFO='/mpf/' + name, REQUEST_METHOD='POST', CONTENT_LENGTH=str(len(data)), CONTENT_TYPE='multipart/form-data; boundary=B')
+        env['wsgi.input'] = io.BytesIO(data)
+    elif kind in ('sfile', 'sfile_range', 'sfile_head'):
+        env['PATH_INFO'] = '/sf/' + name
+        if kind == 'sfile_range':
+            env['HTTP_RANGE'] = 'bytes=5-%d' % (14 + len(name))
+        if kind == 'sfile_head':
+            env['REQUEST_METHOD'] = 'HEAD'
     elif kind == 'crashform':
         data = ('v=secret-of-' + name).encode()
         env.update(PATH_INFO='/crashform/x', REQUEST_METHOD='POST', CONTENT_LENGTH=str(len(data)), CONTENT_TYPE='application/x-www-form-urlencoded',
@@ -525,10 +566,11 @@ def environ_for(kind, name):
         env['PATH_INFO'] = '/stream/' + name
     elif kind == 'chunked':
         payload = ('k=' + name + '&data=' + 'z' * 37 + name).encode()
-        wire = b''
-        for i in range(0, len(payload), 11):
+        # the first chunk has a two-digit size (1a), the second a size with leading zeros, the rest one digit each
+        wire = b'1a\r\n' + payload[:26] + b'\r\n'
+        for n_, i in enumerate(range(26, len(payload), 11)):
             piece = payload[i:i + 11]
-            wire += ('%x' % len(piece)).encode() + b'\r\n' + piece + b'\r\n'
+            wire += (('%03x' if n_ == 0 else '%x') % len(piece)).encode() + b'\r\n' + piece + b'\r\n'
         wire += b'0\r\n\r\n'
         env.update(PATH_INFO='/chunked/' + name, REQUEST_METHOD='POST', HTTP_TRANSFER_ENCODING='chunked', CONTENT_TYPE='application/x-www-form-urlencoded')
         env['wsgi.input'] = io.BytesIO(wire)
